@@ -6,7 +6,7 @@ from pyvc import native
 
 def run(rep, tier, seed):
     # the dispatchers: a handler's refusal either propagates or falls back to raw with the code preserved beforehand
-    verify_all(rep, k_modifying.specs('C12') + k_view.dispatcher_specs('C12'))
+    verify_all(rep, k_modifying.specs('C12') + k_view.dispatcher_specs('C12') + k_view.replace_specs('C12'))
     k_modifying.usage_structural(rep, 'C12')
     k_order.c12_handlers(rep, 'C12')
     k_options.validators_finite(rep, 'C12')   # an out-of-range option value is screened before the edit starts
